@@ -62,13 +62,31 @@ func runC02(r *Run) {
 		}
 		return false
 	}
+	// onlyAssocExtra: the OperatorShare term executes under the TotalShare term's conditions plus the association test only
+	onlyAssocExtra := func(os, tsT DTerm) (bool, string) {
+		base := map[string]bool{}
+		for _, c := range tsT.Conds {
+			base[c] = true
+		}
+		for _, c := range os.Conds {
+			if base[c] || c == "!err != nil" {
+				continue
+			}
+			if strings.Contains(c, "==") || strings.Contains(c, `!= ""`) {
+				continue // the association comparison (its shape is checked by assocCond)
+			}
+			return false, c
+		}
+		return true, ""
+	}
 	// ---- R1
 	if v, ts := get("x/delegation/keeper", "Keeper.delegateTo"); v != nil {
 		tsT, ok1 := one(ts, "TS")
 		us, ok2 := one(ts, "US")
 		os, ok3 := one(ts, "OS")
 		good := ok1 && ok2 && ok3 && tsT.Sign == 1 && us.Sign == 1 && os.Sign == 1 && tsT.Sym == us.Sym && os.Sym == us.Sym && assocCond(v, os) && !assocCond(v, tsT)
-		r.check(good, "C02.R1", "delegateTo|shares", v.pos(v.Decl), "minted shares go to TotalShare and the delegator alike; to OperatorShare iff associated", "delegateTo share deltas: "+renderTerms(ts))
+		extraOK, extra := onlyAssocExtra(os, tsT)
+		r.check(good && extraOK, "C02.R1", "delegateTo|shares", v.pos(v.Decl), "minted shares go to TotalShare and the delegator alike; to OperatorShare iff associated (under no other condition)", "delegateTo share deltas: "+renderTerms(ts)+"; OperatorShare additionally depends on `"+extra+"`")
 		// the share is CalculateShare(operator, assetID, amount) of the delegated amount
 		okCalc := false
 		for _, c := range v.CallsNamed("CalculateShare") {
@@ -85,7 +103,8 @@ func runC02(r *Run) {
 		tsT, ok1 := one(ts, "TS")
 		os, ok3 := one(ts, "OS")
 		good := ok1 && ok3 && tsT.Sign == -1 && os.Sign == -1 && tsT.Sym == os.Sym && assocCond(v, os) && !assocCond(v, tsT)
-		r.check(good, "C02.R1", "RemoveShareFromOperator|shares", v.pos(v.Decl), "burned shares leave TotalShare; OperatorShare iff associated", "RemoveShareFromOperator share deltas: "+renderTerms(ts))
+		extraOK, extra := onlyAssocExtra(os, tsT)
+		r.check(good && extraOK, "C02.R1", "RemoveShareFromOperator|shares", v.pos(v.Decl), "burned shares leave TotalShare; OperatorShare iff associated (under no other condition)", "RemoveShareFromOperator share deltas: "+renderTerms(ts)+"; OperatorShare additionally depends on `"+extra+"`")
 	}
 	if v, ts := get("x/delegation/keeper", "Keeper.RemoveShare"); v != nil {
 		us, ok := one(ts, "US")
